@@ -338,12 +338,11 @@ impl FixtureDatabase {
         assert(dvs(available_fixtures@) =~= av0.push(v.defs[nm][i]));
         assert(seen_names.s() == seen0.insert(nm));
     }
-@before sort_by 1
+@after for 8
     let ghost av_pre = available_fixtures@;
-    proof {
-        lemma_scan_end(v, pick, dvs(available_fixtures@), seen_names.s(), done, curf, nxtf, cond);
-        lemma_name_cmp_total();
-    }
+    proof { lemma_scan_end(v, pick, dvs(available_fixtures@), seen_names.s(), done, curf, nxtf, cond); }
+@before sort_by 1
+    proof { lemma_name_cmp_total(); }
 @return tail
     lemma_avail_final(v, file, av_pre, seen_names.s(), available_fixtures@, sort_perm(av_pre, available_fixtures@));
 @*/
